@@ -131,7 +131,7 @@ func checkC06(replay string) {
 	var mu sync.Mutex
 	facts, factProblems, variants := 0, 0, map[string]int{}
 	base.Par(nProg, 8, func(pi int) {
-		spec := gen.Spec{Seed: r.Seed + 6000, Index: pi, Hostile: pi%2 == 0, Tests: false, Excluded: false, Impl: pi%3 == 0, PerPair: 6, Twin: pi%2 == 1, Transit: true, Unrelated: true}
+		spec := gen.Spec{Seed: r.Seed + 6000, Index: pi, Hostile: pi%2 == 0, Tests: false, Excluded: false, Impl: pi%3 == 0, PerPair: 6, Twin: pi%2 == 1, Transit: true, Unrelated: true, SameNames: pi%4 == 2}
 		bt := gen.Build(spec)
 		files := gen.Render(bt.P, gen.RenderOpts{})
 		root := ggrun.Scratch()
